@@ -5,6 +5,7 @@ package lnwallet
 import (
 	"crypto/sha256"
 	"encoding/binary"
+	"encoding/json"
 	"fmt"
 	"os"
 	"path/filepath"
@@ -75,6 +76,31 @@ type vEntry struct {
 	RR  uint64 `json:"rR"`
 }
 
+// MarshalJSON never emits null for a list (TLC's Json module cannot read null).
+func (p vParty) MarshalJSON() ([]byte, error) {
+	type plain vParty
+	q := plain(p)
+	if q.LC == nil {
+		q.LC = []vCommit{}
+	}
+	if q.RC == nil {
+		q.RC = []vCommit{}
+	}
+	if q.L == nil {
+		q.L = []vEntry{}
+	}
+	if q.R == nil {
+		q.R = []vEntry{}
+	}
+	if q.Net == nil {
+		q.Net = []string{}
+	}
+	if q.Fwd == nil {
+		q.Fwd = []vFwd{}
+	}
+	return json.Marshal(q)
+}
+
 // vFwd is one forwarding package as stored on disk.
 type vFwd struct {
 	H    uint64          `json:"h"`
@@ -105,7 +131,7 @@ type vLine struct {
 	TxEq  int               `json:"txeq"`
 	SigOk map[string]int    `json:"sigok"`
 	RelH  int64             `json:"relh"`
-	NTx   map[string]int64  `json:"ntx"`
+	NTx   map[string]int64  `json:"ntx,omitempty"`
 	Type  string            `json:"type,omitempty"`
 	Opener string           `json:"opener,omitempty"`
 	Dust   map[string]int64  `json:"dust,omitempty"`
